@@ -285,6 +285,59 @@ def unit_on_iteration(S):
         S.prove(f"{tag}/training-log-forwarded", ctx, sand(has(log["loss"].scalar()), has(log["approx_kl"].scalar())), function=F_ONITER,
                 what="every entry of the training log is forwarded unchanged")
 
+    # delivery: with several backends each one receives every record.  The host functions recorded in the extracted program are INVOKED after extraction (as the runtime does:
+    # late, after the Python loop over backends has finished) on concrete values; each recording backend must have received exactly that record, in backend order.
+    class _Rec(AbstractLoggingBackend):
+        got: list
+
+        def __init__(self):
+            self.got = []      # a (mutable) list object fixed at construction; records are appended to it by the host callbacks
+        def open(self, name): pass
+        def log_scalars(self, scalars, step): self.got.append((dict(scalars), int(step)))
+        def log_video(self, *a, **k): pass
+        def log_hparams(self, h): self.got.append(("hparams", dict(h)))
+        def close(self): pass
+
+    def deliver(nb, which):
+        backs = [_Rec() for _ in range(nb)]
+        cb = LoggingCallback(backs, name="lvc", hparams={"tag": 1})
+        ctx = Ctx()
+        st = sym(ctx, "ls", ls_struct(None))
+        log = sym(ctx, "log", {"loss": sd((), f32), "approx_kl": sd((), f32)})
+        k, _ = kit.key_input("key")
+        from lerax.callback.base_callback import EmptyCallbackState
+        if which == "on_iteration":
+            run(ctx, lambda c, s, lg, kk: c.on_iteration(IterationContext(EmptyCallbackState(), s, None, None, jnp.asarray(0), {"learning_rate": jnp.asarray(0.5)}, lg, None, {}), key=kk), cb, st, log, k)
+        else:
+            from lerax.callback.base_callback import TrainingContext
+            from lerax.algorithm import PPO
+            from lvc.generic import GenericActorCriticPolicy
+            pol_ = GenericActorCriticPolicy(Discrete(3), GenericEnv(Discrete(3)).observation_space)
+            run(ctx, lambda c, s, kk: c.on_training_start(TrainingContext(EmptyCallbackState(), s, None, pol_, 10, jnp.asarray(0), None, PPO(num_envs=1, num_steps=4, num_batches=1), {}), key=kk), cb, st, k)
+        effs = [e for e in ctx.effects if e[0] == "debug_callback"]
+        for n_, e in enumerate(effs):
+            fn_ = e[1]["callback"]
+            avals = [a for a in e[2]]
+            vals = [np.asarray(7 + n_ if a.kind == "i" else 0.25 * (j + 1), a.dtype if a.dtype is not None else np.float32).reshape(tuple(a.shape)) for j, a in enumerate(avals)]
+            fn_(*vals)
+        return backs, len(effs)
+
+    def native_delivery_replay(model):
+        for which in ("on_iteration", "on_training_start"):
+            for nb in (1, 2, 3):
+                backs, ne = deliver(nb, which)
+                got = [len(b.got) for b in backs]
+                if ne != nb or got != [1] * nb:
+                    return dict(reproduced=True, route="R1 (recorded host callbacks invoked after extraction, recording backends)", inputs=dict(hook=which, backends=nb), observed=dict(callbacks_in_program=ne, records_received_per_backend=got))
+        return dict(reproduced=False, note="1, 2 and 3 backends: each receives exactly one record per hook")
+    for which in ("on_iteration", "on_training_start"):
+        for nb in (2, 3):
+            backs, ne = deliver(nb, which)
+            got = [len(b.got) for b in backs]
+            S.fact(f"{which}[{nb} backends]/every-backend-receives-the-record", ne == nb and got == [1] * nb, function=F_ONITER if which == "on_iteration" else "lerax.callback.logging.callback:LoggingCallback.on_training_start",
+                   replay=native_delivery_replay, detail=dict(callbacks=ne, received=got),
+                   what="one host callback per backend, and when the callbacks run (after the Python loop over backends has ended) backend i receives record i: no record is lost or delivered to another backend")
+
 
 def _bm_env_policy(ctx):
     E0 = GenericEnv(Discrete(3))
